@@ -289,6 +289,7 @@ func rulePagingClamped(c *Ctx, rule string) {
 		lower := cmpConst(token.LSS, token.LEQ)
 		// find the phi edges that carry the raw value to the return
 		n, ok := 0, true
+		var curRet *ssa.Return
 		var visit func(v ssa.Value, seen map[ssa.Value]bool)
 		visit = func(v ssa.Value, seen map[ssa.Value]bool) {
 			if seen[v] {
@@ -296,9 +297,11 @@ func rulePagingClamped(c *Ctx, rule string) {
 			}
 			seen[v] = true
 			if v == raw {
-				// returned directly without any merge: unguarded
+				// returned directly (early-return form): the return itself must lie behind both bounds
 				n++
-				ok = false
+				if curRet == nil || !guardedBy(fn, curRet, upper) || !guardedBy(fn, curRet, lower) {
+					ok = false
+				}
 				return
 			}
 			ph, isPhi := v.(*ssa.Phi)
@@ -322,6 +325,7 @@ func rulePagingClamped(c *Ctx, rule string) {
 			}
 		}
 		for _, ret := range returns(fn) {
+			curRet = ret
 			visit(retVal(ret, 0), map[ssa.Value]bool{})
 		}
 		c.ob(rule, fn, "parsed value is returned only when inside a constant range", at[0], ok && n > 0,
